@@ -566,12 +566,13 @@ class C08(Prop):
                 ctx.add("req", list(trip) + [dels(parts)], stream=s, trip=trip, parts=parts)
             for trip, parts in exact_limit_cuts(ctx, s):
                 ctx.add("req", list(trip) + [dels(parts)], stream=s, trip=trip, parts=parts)
-            # None disables exactly that limit: compare with a huge Some
+            # None disables exactly that limit: compare with the largest Some (a declared length can exceed
+            # any smaller 'huge' value, e.g. Content-Length: 2^64-1 against 10^9 -- a false alarm of an earlier version)
             if rng.random() < 0.3:
                 base = list(rng.choice(G.limit_triples(rng, meta, 3)))
                 k = rng.randrange(3)
                 a, b = list(base), list(base)
-                a[k], b[k] = "-", str(10 ** 9)
+                a[k], b[k] = "-", "18446744073709551615"      # usize::MAX: a limit nothing representable exceeds
                 g = ("none", s, tuple(base), k)
                 ctx.add("req", a + [dels([s])], group=g, stream=s, trip=tuple(a), parts=[s])
                 ctx.add("req", b + [dels([s])], group=g, stream=s, trip=tuple(b), parts=[s])
